@@ -7,7 +7,9 @@ case["type"] == "send": 1-6 kickers call kiq() concurrently against a scripted b
 Log entry: [who, event...], who = index of the message (taken from the asyncio task's name, or from the closure
 for things that run in a worker thread).  Nothing here predicts anything: the model lives in Coq."""
 import asyncio
+import dataclasses
 import gc
+import json
 import threading
 import time as time_mod
 from concurrent.futures import Executor, ThreadPoolExecutor
@@ -467,7 +469,76 @@ def make_mw_class(idx, spec, tbl):
             parent.__init__(self)
             self.tenant = tenant
         leaf["__init__"] = __init__
-    return type("RecMw%d" % idx, bases, leaf)
+    eq = spec.get("eq")
+    if not eq:
+        return type("RecMw%d" % idx, bases, leaf)
+    leaf.update(eq_namespace(eq))
+    cls = type("RecMw%d" % idx, bases, leaf)
+    if eq["kind"] == "dataclass":
+        # a middleware written as a @dataclass (configuration fields): the generated __eq__ compares the fields of two
+        # instances of the SAME class; __hash__ is None (default), field-based (unsafe_hash) or the explicit one above
+        cls = dataclasses.dataclass(eq=True, unsafe_hash=eq.get("hash") == "value")(cls)
+    return cls
+
+
+def eq_namespace(eq):
+    """special methods of a recording middleware class whose instances do not have plain identity semantics
+    (spec["eq"]; absent = an ordinary class).  Nothing in the property depends on them: a middleware is registered per
+    OBJECT, every registered object's overridden hooks are due.
+      kind  dataclass  real @dataclass with one configuration field `header` (set per instance from eq["key"])
+            value      hand-written __eq__ over the configuration (`_eq_key`), equal across different classes
+            always / never / raises   __eq__ answers True for anything / False even for itself / raises
+            identity   default equality (only hash / truth vary)
+      hash  value = consistent with __eq__, none = unhashable (__hash__ = None), id = object identity
+      truth bool = __bool__ is False, len = __len__ is 0 (a container-like middleware that is empty), absent = truthy"""
+    kind, ns = eq["kind"], {}
+    if kind == "dataclass":
+        ns["__annotations__"] = {"header": str}
+        ns["header"] = "h0"
+    elif kind == "value":
+        def __eq__(self, other):
+            if not isinstance(other, TaskiqMiddleware):
+                return NotImplemented
+            return getattr(other, "_eq_key", None) == self._eq_key
+        ns["__eq__"] = __eq__
+    elif kind == "always":
+        ns["__eq__"] = lambda self, other: True
+    elif kind == "never":
+        ns["__eq__"] = lambda self, other: False
+    elif kind == "raises":
+        def __eq__(self, other):
+            raise CustomError("middlewares of this class cannot be compared")
+        ns["__eq__"] = __eq__
+    elif kind != "identity":
+        raise ValueError(kind)
+    h = eq.get("hash", "id")
+    if h == "none":
+        if kind != "dataclass":       # (a dataclass with eq=True sets __hash__ = None by itself)
+            ns["__hash__"] = None
+    elif h == "id" or kind in ("never", "raises", "identity"):
+        if kind != "identity":        # defining __eq__ alone would make the class unhashable
+            ns["__hash__"] = object.__hash__
+    elif h == "value":
+        if kind == "value":
+            ns["__hash__"] = lambda self: hash(("cfg", self._eq_key))
+        elif kind == "always":
+            ns["__hash__"] = lambda self: 0
+    else:
+        raise ValueError(h)
+    if eq.get("truth") == "bool":
+        ns["__bool__"] = lambda self: False
+    elif eq.get("truth") == "len":
+        ns["__len__"] = lambda self: 0
+    return ns
+
+
+def shared_class_key(spec):
+    """eq["kind"] == dataclass: two specs that describe the same class (same hooks, same shape, same special methods) ARE
+    one class in this case, wherever they stand - another position of the stack, a later add_middlewares call, another
+    broker: two instances of it with equal fields compare equal"""
+    shape = {k: v for k, v in (spec.get("shape") or {}).items() if k not in ("twin", "kind")}
+    eq = {k: v for k, v in spec["eq"].items() if k != "key"}
+    return json.dumps([hook_specs(spec), shape, eq], sort_keys=True)
 
 
 def make_mws(specs, tbl, base=0):
@@ -476,13 +547,26 @@ def make_mws(specs, tbl, base=0):
     out, prev = [], None
     for idx, spec in enumerate(specs):
         shape = spec.get("shape") or {}
-        if shape.get("twin") and prev is not None and hook_specs(specs[idx - 1]) == hook_specs(spec) \
-                and bool((specs[idx - 1].get("shape") or {}).get("init")) == bool(shape.get("init")):
+        eq = spec.get("eq") or {}
+        shared = CUR.setdefault("mw_classes", {}) if eq.get("kind") == "dataclass" else None
+        if shared is not None and shared_class_key(spec) in shared:
+            cls = shared[shared_class_key(spec)]
+        elif shape.get("twin") and prev is not None and hook_specs(specs[idx - 1]) == hook_specs(spec) \
+                and bool((specs[idx - 1].get("shape") or {}).get("init")) == bool(shape.get("init")) \
+                and {k: v for k, v in (specs[idx - 1].get("eq") or {}).items() if k != "key"} \
+                == {k: v for k, v in eq.items() if k != "key"}:
             cls = prev
         else:
             cls = make_mw_class(base + idx, spec, tbl)
+        if shared is not None:
+            shared.setdefault(shared_class_key(spec), cls)
         inst = cls("tenant%d" % idx) if shape.get("init") else cls()
         inst._rec_idx = base + idx
+        if eq:
+            # the configuration the value-based equalities look at: equal keys = equal configuration
+            inst._eq_key = eq.get("key", 0)
+            if eq["kind"] == "dataclass":
+                inst.header = "h%d" % eq.get("key", 0)
         for name in HOOKS_ALL:
             h = spec.get(name)
             if h is not None and h.get("inst"):
